@@ -56,4 +56,23 @@ theorem exported_broadcast_arrays_correct (env : List (Tensor Int)) (a b : TG) (
 example : ((triluGraph (.inp 0) 3 false 0).eval [constT [2, 3] [1, 2, 3, 4, 5, 6]]).toFlat = [1, 0, 0, 4, 5, 0] := by decide
 example : ((broadcastArraysGraph [.inp 0, .inp 1] 6 0).eval [constT [2, 1] [1, 2], constT [3] [7, 8, 9]]).toFlat = [1, 1, 1, 2, 2, 2] := by decide
 
+/-- **C11, `take` with a constant 1-D index list, exported graph.**  `Gather(axis)` with the indices as an int64 vector:
+the result has the operand's shape with the axis extent replaced by the number of indices, and position `i` of the axis
+reads position `indices[i]` (negative entries count from the end) — NumPy's `take(x, indices, axis)`. -/
+theorem take_graph_correct (env : List (Tensor Int)) (x : TG) (indices : List Int) (axis : Int) :
+    ((takeGraph x indices axis).eval env).shape
+      = (x.eval env).shape.set (normAxis (x.eval env).rank axis) indices.length ∧
+    ∀ ix, ((takeGraph x indices axis).eval env).get ix
+      = (x.eval env).get (updAxis ix (normAxis (x.eval env).rank axis) (fun i =>
+          let j := indices.getD i 0
+          (if j < 0 then j + Int.ofNat ((x.eval env).shape.getD (normAxis (x.eval env).rank axis) 0) else j).toNat)) := by
+  simp only [takeGraph, TG.eval, gatherOp]
+  have hs : ((ivec indices).eval env).shape = [indices.length] := by simp [ivec, TG.eval, constT]
+  rw [hs]
+  simp only [onnxGatherAxis, eval_ivec_toFlat]
+  exact ⟨trivial, fun _ => rfl⟩
+
+example : ((takeGraph (.inp 0) [2, -3, 0] (-1)).eval [constT [2, 3] [0, 1, 2, 3, 4, 5]]).toFlat = [2, 0, 0, 5, 3, 3] := by decide
+
+
 end Ndx.TGraph
